@@ -5,8 +5,7 @@ from .common import both
 
 ID = 'C19'
 TARGETS = ['theories/Properties/C19.vo']
-THEOREMS = ['C19_tail_irrelevant', 'C19_prefix', 'C19_invalid', 'C19_fix_char_spec', 'C19_leaves_others_unchanged',
-            'C19_no_wrap', 'C19_scalar', 'C19_idempotent']
+THEOREMS = core.theorems_of(ID)
 LEVEL = ('fix_char regenerated from src/game/shift_jis.rs and proved equal to the stated map for every code point, idempotent, scalar-valued '
          '(the unwrap cannot fail); NUL truncation proved for an arbitrary strict decoder; the real MeleeString::try_from / to_normalized are '
          'compared with the model on all scalar values and on exhaustive 1-byte / sampled 2-byte sequences x NUL layouts (the Shift-JIS table '
